@@ -78,6 +78,8 @@ private:
     const Type* canonicalize(const Type* ty, const Scope* scope);
 
     void canonicalizeAnonymousFields(FieldDeclarationSymbol* fldDecl);
+    void canonicalizeTypeOf(DeclarationSymbol* decl);
+    bool refersToDiscardedType(const Type* ty) const;
 
     //--------------//
     // Declarations //
